@@ -436,7 +436,7 @@ func c08ClientType(c *core.Ctx, nt *types.Named, fam []*ssa.Function) {
 			}
 			visited := core.Walk(core.After(d), isProbeish, edgeOK)
 			bad := false
-			for _, r := range core.Returns(f) {
+			for _, r := range core.ErrReturns(f) {
 				if !visited[r] {
 					continue
 				}
@@ -473,7 +473,7 @@ func c08ClientType(c *core.Ctx, nt *types.Named, fam []*ssa.Function) {
 		visited := core.Walk(core.After(pr.instr), nil, edgeOK)
 		nilRet := false
 		var where token.Pos
-		for _, r := range core.Returns(pr.fn) {
+		for _, r := range core.ErrReturns(pr.fn) {
 			if !visited[r] {
 				continue
 			}
@@ -501,7 +501,7 @@ func c08ClientType(c *core.Ctx, nt *types.Named, fam []*ssa.Function) {
 			moreEdge = func(fc core.Fact) bool { return fc.Op == token.ILLEGAL && !fc.Neg && fc.X == pr.okV }
 		}
 		found, okMore := false, true
-		for _, r := range core.Returns(pr.fn) {
+		for _, r := range core.ErrReturns(pr.fn) {
 			if core.GuardedBy(r, moreEdge) && core.Reachable(core.After(pr.instr), r) {
 				found = true
 				for _, l := range core.ErrLeaves(r.Results[len(r.Results)-1], r) {
